@@ -103,7 +103,9 @@ def streams(rng, tier, ctx):
                     break
                 for _ in range(r.range(1, 4)):
                     if r.chance(1, 12):
-                        hx = r.bytes(r.range(5, 60)).hex()
+                        # noise of every length from 1 byte up, incl. the short all-zero / all-one strings and a bare CRC of nothing
+                        L = r.weighted([(r.range(1, 9), 3), (r.range(5, 60), 4), (r.range(60, 1472), 1)])
+                        hx = r.weighted([(r.bytes(L).hex(), 4), ("00" * min(L, 9), 2), ("ff" * min(L, 9), 1), (codec.op("crc -").strip() and "%08x" % int(codec.op("crc -")), 1)])
                         kinds.append("noise")
                     else:
                         txt = hostile_frame(r, p, codec)
